@@ -92,6 +92,9 @@ pub struct CallCfg {
     /// `bops=<p>` (optional token, `t` runs): every user future performs `p` budget-consuming tokio
     /// operations before it completes.
     pub bops: usize,
+    /// `yld=<k>` (optional token): every user future first wakes itself and returns `Pending` `k`
+    /// times (a cooperatively yielding function).
+    pub yld: usize,
 }
 
 impl CallCfg {
@@ -109,6 +112,7 @@ impl CallCfg {
             imm: Vec::new(),
             sig: None,
             bops: 0,
+            yld: 0,
         }
     }
 
@@ -159,6 +163,9 @@ pub fn fmt_call_cfg(c: &CallCfg) -> String {
     }
     if c.bops > 0 {
         out.push_str(&format!(" bops={}", c.bops));
+    }
+    if c.yld > 0 {
+        out.push_str(&format!(" yld={}", c.yld));
     }
     out
 }
@@ -522,12 +529,15 @@ pub fn parse_call_cfg(s: &str) -> Result<CallCfg, String> {
     // optional trailing tokens
     let mut sig = None;
     let mut bops = 0usize;
+    let mut yld = 0usize;
     let mut core: Vec<&str> = Vec::new();
     for t in s.split_whitespace() {
         if let Some(v) = t.strip_prefix("sig=") {
             sig = Some(v.parse::<usize>().map_err(|_| format!("bad sig `{t}`"))?);
         } else if let Some(v) = t.strip_prefix("bops=") {
             bops = v.parse::<usize>().map_err(|_| format!("bad bops `{t}`"))?;
+        } else if let Some(v) = t.strip_prefix("yld=") {
+            yld = v.parse::<usize>().map_err(|_| format!("bad yld `{t}`"))?;
         } else {
             core.push(t);
         }
@@ -574,6 +584,7 @@ pub fn parse_call_cfg(s: &str) -> Result<CallCfg, String> {
         imm,
         sig,
         bops,
+        yld,
     };
     cfg.validate()?;
     Ok(cfg)
